@@ -65,6 +65,27 @@ pub fn check(sc: &Scenario, out: &RunOutput) -> OracleResult {
         r.hit("premise_not_met_arithmetic", true);
         return r;
     }
+    // the budget is about datagram identities (a segment and its retransmissions are one
+    // identity): explicit fault lists name send attempts and can hit one identity more often
+    // than the declared budget - then the arithmetic above says nothing
+    {
+        let mut per_identity: std::collections::HashMap<(std::net::SocketAddr, u16, u8, u16, usize, u16), u32> = Default::default();
+        for (_, e) in out.hist.emits() {
+            if matches!(e.fate, crate::hist::Fate::Dropped(_)) {
+                if let Some(p) = &e.pkt {
+                    let seg = p.typ == codec::ST_DATA || p.typ == codec::ST_FIN;
+                    let key = (e.src, p.conn_id, p.typ, p.seq, p.payload.len(), if seg { 0 } else { p.ack });
+                    *per_identity.entry(key).or_insert(0) += 1;
+                }
+            }
+        }
+        let k = sc.net.drop_budget.unwrap_or(0) as u32;
+        if sc.param("c02_mode") != Some(1) && per_identity.values().any(|n| *n > k) {
+            let mut r = OracleResult::default();
+            r.hit("premise_not_met_identity_dropped_beyond_budget", true);
+            return r;
+        }
+    }
     if !connector_writes_promptly(sc, out) {
         let mut r = OracleResult::default();
         r.hit("premise_not_met_connector_silent", true);
